@@ -227,7 +227,8 @@ func program(c Case) (setup, main string) {
 (defmethod c17-ver ((x fixnum) (y fixnum) (z fixnum)) 0)
 (defun ver-caller (id) (vt:begin) (dotimes (i %d) (vt:sink id (c17-ver 1 2 3))) (vt:end) (channel-push *done* id))
 `, c.M*3)
-		fmt.Fprintf(&sb, "(progn (setq *done* (make-channel %d))", c.N+2)
+		// version 0 is (re)established first: a warm-up run leaves the generic at its last version
+		fmt.Fprintf(&sb, "(progn (defmethod c17-ver ((x fixnum) (y fixnum) (z fixnum)) 0) (setq *done* (make-channel %d))", c.N+2)
 		for i := 1; i < c.N; i++ {
 			fmt.Fprintf(&sb, " (run (ver-caller %d))", i)
 		}
